@@ -188,7 +188,8 @@ for line in sys.stdin:
     k.release()
 """
 WRAP_BASE = ('from numpy import inf\nname = "verif_c17_base"\ntitle = "C17 base"\ndescription = "a"\ncategory = "shape:sphere"\n'
-             'parameters = [["rg", "", 1.0, [-10, 10], "", ""]]\nIq = "return %d.0 + 0.0*q + rg;"\n')
+             'parameters = [["rg", "", 1.0, [-10, 10], "", ""]]\nsource = ["verif_c17_bsrc.c"]\nIq = "return %d.0 + c17_off() + 0.0*q + rg;"\n')
+WRAP_SRC = "static double c17_off(void) { return %d.0; }\n"
 WRAP_WRAP = ('import os\nfrom numpy import inf\nfrom sasmodels.core import reparameterize\n'
              '_base = os.path.join(os.path.dirname(os.path.abspath(__file__)), "verif_c17_base.py")\n'
              'parameters = [["size", "", 1.0, [-10, 10], "", ""]]\ntranslation = "rg = %d.0*size"\n'
@@ -198,20 +199,22 @@ WRAP_WRAP = ('import os\nfrom numpy import inf\nfrom sasmodels.core import repar
 def run_wrapper(root, idx, ops):
     """A plug-in built ON another plug-in (core.reparameterize(base_path, ..., __file__)): histories of
     ("base", A) / ("wrap", F) edits (each advancing its file's time) and loads of the base alone or of the wrapper.
-    The wrapper evaluates A + F at q = 1, size = 1; the base alone A + 1.  Returns the observations and expectations."""
+    The base lists a C source of its own (("src", K) edits).  The wrapper evaluates A + K + F at q = 1, size = 1; the base
+    alone A + K + 1.  Returns the observations and expectations."""
     d = os.path.join(root, "wr%d" % idx)
     os.makedirs(os.path.join(d, "cache"))
     bpath, wpath, kpath = os.path.join(d, "verif_c17_base.py"), os.path.join(d, "verif_c17_wrap.py"), os.path.join(d, "worker.py")
     open(kpath, "w").write(WRAP_WORKER)
-    cur, clock = {"base": 3, "wrap": 2}, {"base": 0, "wrap": 0}
+    cur, clock = {"base": 3, "wrap": 2, "src": 0}, {"base": 0, "wrap": 0, "src": 0}
+    spath = os.path.join(d, "verif_c17_bsrc.c")
 
     def put(which, val):
         cur[which] = val
         clock[which] += 3
-        path = bpath if which == "base" else wpath
-        open(path, "w").write((WRAP_BASE if which == "base" else WRAP_WRAP) % val)
+        path = {"base": bpath, "wrap": wpath, "src": spath}[which]
+        open(path, "w").write({"base": WRAP_BASE, "wrap": WRAP_WRAP, "src": WRAP_SRC}[which] % val)
         os.utime(path, (T0 + clock[which], T0 + clock[which]))
-    put("base", 3); put("wrap", 2)
+    put("src", 0); put("base", 3); put("wrap", 2)
     env = dict(os.environ)
     env.update(PYTHONPATH=common.REPO, SAS_DLL_PATH=os.path.join(d, "cache"), PYTHONHASHSEED="0", SAS_OPENCL="none", PYTHONDONTWRITEBYTECODE="1")
     proc = None
@@ -228,7 +231,7 @@ def run_wrapper(root, idx, ops):
                     proc = subprocess.Popen([common.PY, kpath, bpath, wpath], env=env, stdin=subprocess.PIPE, stdout=subprocess.PIPE, stderr=subprocess.PIPE, text=True, cwd=d)
                 proc.stdin.write(json.dumps({"op": op[0]}) + "\n"); proc.stdin.flush()
                 line = proc.stdout.readline()
-                want = float(cur["base"] + 1) if op[0] == "load_base" else float(cur["base"] + cur["wrap"])
+                want = float(cur["base"] + cur["src"] + (1 if op[0] == "load_base" else cur["wrap"]))
                 got3 = json.loads(line) if line else None
                 got = got3[0] if got3 else None
                 obs.append(dict(op=op[0], got=got, want=want, files=dict(cur), error=None if line else proc.stderr.read()[-400:],
@@ -478,12 +481,14 @@ def main(run):
     # plug-ins built on plug-ins: the base loaded alone first, the wrapper edited and reloaded, then the base edited ...
     whist = [[("load_base",), ("load_wrap",), ("edit", "base", 5), ("load_wrap",), ("edit", "base", 3), ("load_wrap",), ("load_base",)],
              [("load_wrap",), ("edit", "base", 6), ("load_wrap",), ("edit", "wrap", 4), ("load_wrap",), ("edit", "base", 7), ("load_wrap",), ("edit", "base", 6), ("load_wrap",),
-              ("fresh",), ("load_wrap",)]]
+              ("fresh",), ("load_wrap",)],
+             # the C source the base lists: edited after the base was loaded alone and the wrapper on top of it
+             [("load_base",), ("load_wrap",), ("edit", "src", 4), ("load_wrap",), ("load_base",), ("edit", "src", 1), ("load_base",), ("load_wrap",), ("fresh",), ("edit", "src", 2), ("load_wrap",)]]
     for _ in range(2 if not thorough else 12):
         h_ = []
         for _k in range(rng.randint(4, 9)):
             r_ = rng.random()
-            h_.append(("edit", rng.choice(["base", "base", "wrap"]), rng.randint(1, 9)) if r_ < 0.45 else (("fresh",) if r_ < 0.52 else (rng.choice(["load_wrap", "load_wrap", "load_base"]),)))
+            h_.append(("edit", rng.choice(["base", "base", "wrap", "src"]), rng.randint(1, 9)) if r_ < 0.45 else (("fresh",) if r_ < 0.52 else (rng.choice(["load_wrap", "load_wrap", "load_base"]),)))
         whist.append(h_ + [("load_wrap",)])
     wres = [run_wrapper(root, i_, h_) for i_, h_ in enumerate(whist)]
     from concurrent.futures import ThreadPoolExecutor
@@ -497,8 +502,8 @@ def main(run):
             stats["wrapper_loads"] += 1
             if o_["got"] is None or abs(o_["got"] - o_["want"]) > 1e-9:
                 nload = [i for i, op in enumerate(wr["ops"]) if op[0].startswith("load")][k_]
-                run.add(Finding("C17:wrapper", "a plug-in built on another plug-in, history %s: %s returned %r, the files (base constant %d, wrapper factor %d) give %r%s" % (
-                    wr["ops"][:nload + 1], o_["op"], o_["got"], o_["files"]["base"], o_["files"]["wrap"], o_["want"], (" (" + o_["error"][-200:] + ")") if o_["error"] else ""), dict(wr)))
+                run.add(Finding("C17:wrapper", "a plug-in built on another plug-in, history %s: %s returned %r, the files (base constant %d, its C source %d, wrapper factor %d) give %r%s" % (
+                    wr["ops"][:nload + 1], o_["op"], o_["got"], o_["files"]["base"], o_["files"]["src"], o_["files"]["wrap"], o_["want"], (" (" + o_["error"][-200:] + ")") if o_["error"] else ""), dict(wr)))
                 break
         else:
             distinct.add(("wrapper", json.dumps(wr["ops"])))
@@ -572,15 +577,15 @@ def main(run):
                 r = res[i]
                 run.add(Finding("C17:corr", "history %s from %s: observations %s / %d libraries differ from the cache model" % (r["ops"], r["init"], r["observed"], len(r["libs"])), dict(r)))
     # the dependency bookkeeping model (C17.Nested) against custom.need_reload as observed just before every load of the
-    # wrapper histories: module 0 = the wrapper, module 1 = the base it is built on
+    # wrapper histories: module 0 = the wrapper, module 1 = the base it is built on, file 2 = the C source the base lists
     wok = [wr for wr in wres if all(o_.get("need_reload") is not None for o_ in wr["observed"])]
     if wok and not run.proof_broken():
         def nop(o):
-            return "Restart" if o[0] == "fresh" else ("Edit %d 2" % (1 if o[1] == "base" else 0) if o[0] == "edit" else "Load %d" % (1 if o[0] == "load_base" else 0))
+            return "Restart" if o[0] == "fresh" else ("Edit %d 2" % {"wrap": 0, "base": 1, "src": 2}[o[1]] if o[0] == "edit" else "Load %d" % (1 if o[0] == "load_base" else 0))
         body = ";\n".join("(%s, %s)" % (coq_list(["(%s)" % nop(o) for o in wr["ops"]], "op"),
                                         coq_list(["(%s, %s)" % tuple(str(bool(b)).lower() for b in o_["need_reload"]) for o_ in wr["observed"]], "(bool * bool)")) for wr in wok)
         text = ("From Coq Require Import List Bool.\nImport ListNotations.\nFrom SM Require Import C17.Nested Gen.C17_code.\n"
-                "Eval vm_compute in (check_from code_handoff_always 0 [\n%s\n]).\n" % body)
+                "Eval vm_compute in (check_from (fun m => if Nat.eqb m 1 then [2] else []) code_handoff_always 0 [\n%s\n]).\n" % body)
         rc, vals, err = common.run_coq_shards([text], run.scratch.sub("coqw"), prefix="c17w")[0]
         if rc != 0 or not vals:
             run.add(Finding("corr:C17:nested", "nested-dependency correspondence failed to evaluate: %s" % err[-300:], {"correspondence": "C17.Nested.check_from", "stderr": err[-1500:]}, no_input=True))
